@@ -22,7 +22,7 @@ impl Parsable for Glue {
                         super::dimen::scan_and_apply_units(
                             input,
                             first_token,
-                            i.abs(),
+                            i.saturating_abs(),
                             Scaled::ZERO,
                             None,
                         )? * negative
